@@ -79,4 +79,201 @@ theorem genFull_ok {o : Options} {f : FileDef} {t : TypeDecl} {g : GenFull} (h :
       subst h
       exact ⟨ts, hts, rfl, by simpa using hd⟩
 
+/-! ### `getPrimary` picks the primary entry of a group -/
+
+theorem getPrimaryLoop_spec (rest : List Value) : ∀ (seen : List Value) (p : Value),
+    p ∈ seen → PrimaryIn seen p →
+    (seen ++ rest).Pairwise (fun a b => a.name < b.name) →
+    (∀ c ∈ seen ++ rest, c.val = p.val) →
+    PrimaryIn (seen ++ rest) (getPrimaryLoop p rest).1 := by
+  induction rest with
+  | nil => intro seen p _ hp _ _; simpa [getPrimaryLoop] using hp
+  | cons v rest ih =>
+    intro seen p hps hp hsort hval
+    have hpa := List.pairwise_append.mp hsort
+    have eassoc : seen ++ v :: rest = (seen ++ [v]) ++ rest := by simp
+    have hpv : p.name < v.name := hpa.2.2 p hps v (by simp)
+    have hvv : v.val = p.val := hval v (by simp)
+    unfold getPrimaryLoop
+    by_cases h1 : (p.deprecated && !v.deprecated) = true
+    · rw [if_pos h1]
+      simp at h1
+      have hall : ∀ c ∈ seen, c.val = p.val → c.deprecated = true := by
+        rcases hp.2 with ⟨hd, _⟩ | ⟨h, _⟩
+        · rw [h1.1] at hd; cases hd
+        · exact h
+      have hpx : PrimaryIn (seen ++ [v]) v := by
+        refine ⟨by simp, Or.inl ⟨h1.2, ?_⟩⟩
+        intro c hc _ hcd
+        rcases List.mem_append.mp hc with hc | hc
+        · have := hall c hc (hval c (List.mem_append_left _ hc)); rw [this] at hcd; cases hcd
+        · rw [List.mem_singleton.mp hc]; exact String.le_refl _
+      rw [eassoc]
+      exact ih (seen ++ [v]) v (by simp) hpx (eassoc ▸ hsort) (fun c hc => by rw [hval c (eassoc ▸ hc), hvv])
+    · rw [if_neg h1]
+      by_cases h2 : (!p.deprecated && !v.deprecated) = true
+      · rw [if_pos h2]
+        simp at h2
+        refine ⟨List.mem_append_left _ hps, Or.inl ⟨h2.1, ?_⟩⟩
+        intro c hc hcv hcd
+        rcases List.mem_append.mp hc with hc | hc
+        · rcases hp.2 with ⟨_, h⟩ | ⟨h, _⟩
+          · exact h c hc hcv hcd
+          · have := h p hps rfl; rw [h2.1] at this; cases this
+        · exact String.le_of_lt' (hpa.2.2 p hps c hc)
+      · rw [if_neg h2]
+        have hvd : v.deprecated = true := by
+          cases hv : v.deprecated
+          · cases hpd : p.deprecated
+            · exact absurd (by simp [hv, hpd]) h2
+            · exact absurd (by simp [hv, hpd]) h1
+          · rfl
+        have hpc : PrimaryIn (seen ++ [v]) p := by
+          refine ⟨List.mem_append_left _ hps, ?_⟩
+          rcases hp.2 with ⟨hd, h⟩ | ⟨ha, hb⟩
+          · left; refine ⟨hd, ?_⟩
+            intro c hc hcv hcd
+            rcases List.mem_append.mp hc with hc | hc
+            · exact h c hc hcv hcd
+            · rw [List.mem_singleton.mp hc] at hcd; rw [hvd] at hcd; cases hcd
+          · right; constructor
+            · intro c hc hcv
+              rcases List.mem_append.mp hc with hc | hc
+              · exact ha c hc hcv
+              · rw [List.mem_singleton.mp hc]; exact hvd
+            · intro c hc hcv
+              rcases List.mem_append.mp hc with hc | hc
+              · exact hb c hc hcv
+              · rw [List.mem_singleton.mp hc]; exact String.le_of_lt' hpv
+        rw [eassoc]
+        exact ih (seen ++ [v]) p (List.mem_append_left _ hps) hpc (eassoc ▸ hsort) (fun c hc => hval c (eassoc ▸ hc))
+
+/-- on a group of entries of one value, listed in name order, `getPrimary` returns the primary
+entry (first live name, else first name) -/
+theorem getPrimary_spec (gl : List Value) (x : Value) (hx : x ∈ gl)
+    (hsort : gl.Pairwise (fun a b => a.name < b.name)) (hval : ∀ c ∈ gl, c.val = x.val) :
+    ∃ p safe, getPrimary gl = some (p, safe) ∧ PrimaryIn gl p := by
+  match gl, hx, hsort, hval with
+  | [v], _, _, _ => exact ⟨v, true, rfl, PrimaryIn.single v⟩
+  | v :: w :: rest, _, hsort, hval =>
+    refine ⟨(getPrimaryLoop v (w :: rest)).1, (getPrimaryLoop v (w :: rest)).2, rfl, ?_⟩
+    have := getPrimaryLoop_spec (w :: rest) [v] v (by simp) (PrimaryIn.single v) (by simpa using hsort)
+      (fun c hc => by rw [hval c (by simpa using hc), hval v (by simp)])
+    simpa using this
+
+/-! ### what `genTraits` returns -/
+
+theorem insertTrait_perm (t : TraitDesc) (l : List TraitDesc) : (insertTrait t l).Perm (t :: l) := by
+  induction l with
+  | nil => exact List.Perm.refl _
+  | cons y ys ih =>
+    unfold insertTrait
+    split
+    · exact List.Perm.refl _
+    · exact (List.Perm.cons y ih).trans (List.Perm.swap t y ys)
+
+theorem sortTraits_perm (l : List TraitDesc) : (sortTraits l).Perm l := by
+  induction l with
+  | nil => exact List.Perm.refl _
+  | cons x xs ih =>
+    show (insertTrait x (sortTraits xs)).Perm (x :: xs)
+    exact (insertTrait_perm x _).trans (List.Perm.cons x ih)
+
+/-- the description `genTraits` builds for column `j` -/
+def mkTrait (o : Options) (vs : List Value) (p : Nat × TraitCol) : TraitDesc :=
+  { name := p.2.name, ty := p.2.ty, fam := p.2.fam, parsable := o.parsable.contains p.2.name,
+    rows := (rowsOf vs p.1 p.2.ty).filter (keepRow {} vs) }
+
+theorem genTraits_ok {o : Options} {cols : List TraitCol} {first : Value} {rest : List Value} {ts : List TraitDesc}
+    (h : genTraits {} o cols (first :: rest) = .ok ts) :
+    ts.Perm (((List.range (cols.take first.tvals.length).length).zip (cols.take first.tvals.length)).map
+      (mkTrait o (first :: rest))) := by
+  unfold genTraits at h
+  simp only [] at h
+  split at h
+  · cases h
+  · split at h
+    · rename_i hemp
+      injection h with h
+      subst h
+      have : cols.take first.tvals.length = [] := by simpa using hemp
+      rw [this]; exact List.Perm.refl _
+    · split at h
+      · cases h
+      · injection h with h
+        subst h
+        exact sortTraits_perm _
+
+theorem mem_zip_range {α : Type} (l : List α) (j : Nat) (x : α) (h : l[j]? = some x) :
+    (j, x) ∈ (List.range l.length).zip l := by
+  obtain ⟨hj, hx⟩ := List.getElem?_eq_some_iff.mp h
+  rw [List.mem_iff_getElem]
+  refine ⟨j, by simp [hj], ?_⟩
+  rw [List.getElem_zip, List.getElem_range, hx]
+
+/-! ### from the value list back to the definition -/
+
+theorem primary_of_primaryIn {f : FileDef} {t : String} {o : Value} (hp : PrimaryIn (sortedValues f t) o) :
+    IsPrimary f t o.val o.name := by
+  obtain ⟨hm, hp⟩ := hp
+  obtain ⟨c, hc, ht, rfl⟩ := mem_sortedValues.mp hm
+  refine ⟨c, hc, ht, rfl, rfl, ?_⟩
+  rcases hp with ⟨hd, hmin⟩ | ⟨hall, hmin⟩
+  · left; refine ⟨hd, ?_⟩
+    intro c' hc' ht' hv' hd'
+    exact hmin (Value.ofConst c') (mem_sortedValues.mpr ⟨c', hc', ht', rfl⟩) hv' hd'
+  · right; constructor
+    · intro c' hc' ht' hv'
+      exact hall (Value.ofConst c') (mem_sortedValues.mpr ⟨c', hc', ht', rfl⟩) hv'
+    · intro c' hc' ht' hv'
+      exact hmin (Value.ofConst c') (mem_sortedValues.mpr ⟨c', hc', ht', rfl⟩) hv'
+
+/-- the group `processDuplicates` forms for the value of `x` (entries with the same uint64 image) -/
+def groupOf (vs : List Value) (x : Value) : List Value := vs.filter (fun v => v.value == x.value)
+
+/-- `getPrimary` on the group of `x` inside a sorted, faithful value list returns an entry that is
+primary in the WHOLE list -/
+theorem getPrimary_group (vs : List Value) (hs : vs.Pairwise R) (hf : ValueFaithful vs) (x : Value) (hx : x ∈ vs) :
+    ∃ p safe, getPrimary (groupOf vs x) = some (p, safe) ∧ PrimaryIn vs p ∧ p.val = x.val := by
+  have hmem : ∀ c, c ∈ groupOf vs x ↔ c ∈ vs ∧ c.val = x.val := by
+    intro c
+    unfold groupOf
+    rw [List.mem_filter]
+    constructor
+    · rintro ⟨hc, hv⟩; exact ⟨hc, (hf c hc x hx).mp (by simpa using hv)⟩
+    · rintro ⟨hc, hv⟩; exact ⟨hc, by simpa using (hf c hc x hx).mpr hv⟩
+  have hsort : (groupOf vs x).Pairwise (fun a b => a.name < b.name) := by
+    have h1 : (groupOf vs x).Pairwise R := hs.filter _
+    refine h1.imp_of_mem ?_
+    intro a b ha hb hr
+    have ea := ((hmem a).mp ha).2
+    have eb := ((hmem b).mp hb).2
+    unfold R at hr
+    rcases hr with h | ⟨_, h⟩
+    · omega
+    · exact h
+  obtain ⟨p, safe, hgp, hpin⟩ := getPrimary_spec (groupOf vs x) x ((hmem x).mpr ⟨hx, rfl⟩) hsort
+    (fun c hc => ((hmem c).mp hc).2)
+  have hpv : p.val = x.val := ((hmem p).mp hpin.1).2
+  refine ⟨p, safe, hgp, ⟨((hmem p).mp hpin.1).1, ?_⟩, hpv⟩
+  rcases hpin.2 with ⟨hd, h⟩ | ⟨h1, h2⟩
+  · left; refine ⟨hd, ?_⟩
+    intro c hc hcv hcd
+    exact h c ((hmem c).mpr ⟨hc, by rw [hcv, hpv]⟩) hcv hcd
+  · right; constructor
+    · intro c hc hcv; exact h1 c ((hmem c).mpr ⟨hc, by rw [hcv, hpv]⟩) hcv
+    · intro c hc hcv; exact h2 c ((hmem c).mpr ⟨hc, by rw [hcv, hpv]⟩) hcv
+
+/-- a row whose owner carries the primary name of its value survives `processDuplicates` -/
+theorem keepRow_of_primary_name (vs : List Value) (hs : vs.Pairwise R) (hf : ValueFaithful vs)
+    (r : TraitRow) (hr : r.owner ∈ vs)
+    (hname : ∀ p, PrimaryIn vs p → p.val = r.owner.val → p.name = r.owner.name) :
+    keepRow {} vs r = true := by
+  obtain ⟨p, safe, hgp, hpin, hpv⟩ := getPrimary_group vs hs hf r.owner hr
+  unfold keepRow
+  have : vs.filter (fun v => v.value == r.owner.value) = groupOf vs r.owner := rfl
+  rw [this, hgp]
+  have hn := hname p hpin hpv
+  simp [hn]
+
 end Genum
